@@ -673,6 +673,43 @@ private:
     }
   }
   
+  // Before v is marked again as unchanged (because it appears in a new
+  // b := cst), drop the constraints recorded for other Booleans that
+  // mention v if v has been modified since they were recorded:
+  // otherwise they would wrongly be considered valid again.
+  template<class BoolToCstEnv>
+  void forget_stale_constraints(BoolToCstEnv &env, const variable_t &v) {
+    if (env.is_top() || env.is_bottom()) {
+      return;
+    }
+    std::vector<variable_t> stale;
+    for (auto it = env.begin(), et = env.end(); it != et; ++it) {
+      const typename BoolToCstEnv::mapped_type &csts = it->second;
+      if (csts.is_top() || csts.is_bottom()) {
+        continue;
+      }
+      for (auto const &cst : csts) {
+        auto const &vars = cst.variables();
+        if (std::find(vars.begin(), vars.end(), v) != vars.end()) {
+          stale.push_back(it->first);
+          break;
+        }
+      }
+    }
+    for (auto const &b : stale) {
+      env -= b;
+    }
+  }
+
+  void mark_as_unchanged(const variable_t &v) {
+    typename invariance_domain_t::set_domain_t singleton(v);
+    if (!(m_unchanged_vars <= singleton)) {
+      forget_stale_constraints(m_bool_to_lincsts, v);
+      forget_stale_constraints(m_bool_to_refcsts, v);
+    }
+    m_unchanged_vars += v;
+  }
+
   // return true if cst's variables haven't been modified. As
   // side-effect, it adds cst into the non-boolean domain if the
   // returned value is true.
@@ -868,12 +905,12 @@ private:
 	m_product.first().set_bool(x, boolean_value::top());
       }
       
-      m_bool_to_lincsts.set(x, lincst_set_t(cst));
       // We assume all variables in cst are unchanged unless the
       // opposite is proven
       for (auto const &v : cst.variables()) {
-	m_unchanged_vars += v;
+	mark_as_unchanged(v);
       }
+      m_bool_to_lincsts.set(x, lincst_set_t(cst));
     }
     m_bool_to_bools -= x;
   }
@@ -904,12 +941,12 @@ private:
 	  m_product.first().set_bool(x, boolean_value::top());
 	}
       }
-      m_bool_to_refcsts.set(x, refcst_set_t(cst));
       // We assume all variables in cst are unchanged unless the
       // opposite is proven
       for (auto const &v : cst.variables()) {
-	m_unchanged_vars += v;
+	mark_as_unchanged(v);
       }
+      m_bool_to_refcsts.set(x, refcst_set_t(cst));
     }
     m_bool_to_bools -= x;
 
